@@ -33,6 +33,12 @@ func parserInputs(o *propOpts, each func(e *entry, s string, origin string)) {
 	for _, st := range g0Sentences(o.tier) {
 		each(entryByName(st.entry), st.text, "G0")
 	}
+	// the sentences of the reference grammar G (a seed-dependent half in the quick tier)
+	for i, st := range gSentences(o.tier, o.seed) {
+		if o.tier == "thorough" || i%2 == int(o.seed%2) {
+			each(entryByName(st.entry), st.text, "G")
+		}
+	}
 	// systematic grafts: for every golden input, every node and every ABSENT optional single child, one text of the slot's type
 	// inserted after the preceding sibling and one at the end of the node
 	sys := 0
